@@ -10,7 +10,7 @@ use crate::world::{CloseKind, Cond, Opts, Outcome, Scenario, Step};
 use std::collections::BTreeMap;
 
 pub const PROGRAMS: &[&str] = &[
-    "txn", "auto2", "drop-in-txn", "fin-in-txn", "srv-error", "srv-kill", "copyout-srvfail", "copyin-srvfail", "copy-abort", "batch-drop", "exttxn", "srv-reset-idle",
+    "txn", "auto2", "drop-in-txn", "fin-in-txn", "srv-error", "srv-kill", "copyout-srvfail", "copyin-srvfail", "copy-abort", "batch-drop", "exttxn", "srv-reset-idle", "parse-only-stay", "prep-then-bind-stay",
 ];
 
 pub fn program(c: usize, prog: &str, stay: bool) -> Script {
@@ -79,6 +79,28 @@ pub fn program(c: usize, prog: &str, stay: bool) -> Script {
             b.extend(wire::sync());
             s = s.q(&format!("BEGIN /*{}*/", t(0, 0))).send_z(b, "P B E S").q(&format!("COMMIT /*{}*/", t(0, 2))).terminate();
         }
+        "parse-only-stay" => {
+            // with statement caching the second identical Parse is answered by the pooler itself;
+            // the client then stays connected and idle: it must hold nothing
+            s = s
+                .send_z({ let mut b = wire::parse("s1", "SELECT 'shared text'", &[]); b.extend(wire::sync()); b }, "P(s1) S")
+                .send_z({ let mut b = wire::parse("s2", "SELECT 'shared text'", &[]); b.extend(wire::sync()); b }, "P(s2, same text) S");
+            if !stay {
+                s = s.terminate();
+            }
+        }
+        "prep-then-bind-stay" => {
+            let mut b = wire::bind("", "s1", &[], &[], &[]);
+            b.extend(wire::execute("", 0));
+            b.extend(wire::sync());
+            s = s
+                .send_z({ let mut b = wire::parse("s1", "SELECT 'shared text'", &[]); b.extend(wire::sync()); b }, "P(s1) S")
+                .send_z(b, "B(s1) E S")
+                .send_z({ let mut b = wire::close(b'S', "s1"); b.extend(wire::sync()); b }, "C(S s1) S");
+            if !stay {
+                s = s.terminate();
+            }
+        }
         "srv-reset-idle" => {
             // the server drops its established connections while they sit idle in the pool (restart,
             // failover, idle-session timeout): each dead connection may cost one client error, then
@@ -123,7 +145,11 @@ fn add_probe(actors: &mut Vec<crate::world::Actor>, pool_size: usize) {
 }
 
 pub fn scenario(mode: &str, pool_size: u32, progs: &[&str]) -> Scenario {
-    let cfg = Cfg::one(PoolCfg::simple("db", mode, pool_size, 1, 0));
+    let mut pool = PoolCfg::simple("db", mode, pool_size, 1, 0);
+    if progs.iter().any(|p| p.ends_with("-stay") && p.starts_with("p")) {
+        pool.extra = "prepared_statements_cache_size = 8\n".into();
+    }
+    let cfg = Cfg::one(pool);
     let mut servers = cfg.servers();
     servers[0].faults.push(Fault { on: Matcher::Contains("KILL!".into()), kind: FaultKind::CloseAfterBytes(40), once: false });
     servers[0].gate = Gate::Off;
@@ -375,7 +401,7 @@ pub fn build(tier: &str) -> SimCheck {
         oracle: Box::new(oracle),
         bound: if thorough { 3 } else { 2 },
         limits: Limits { max_wall_s: if thorough { 1500.0 } else { 50.0 }, ..Default::default() },
-        rule: "scenario = pool mode x pool_size {1,2} x (pool_size+1 or +2) client programs (normal, aborts by hard drop/FIN mid-transaction, mid-COPY, mid-batch, server-side errors, server closing mid-reply, server-failed COPY, server dropping its idle pooled connections) plus hold-past-connect_timeout with/without checkout_failure_limit; all schedules with <= bound deviations; then pool_size simultaneous probe transactions and a pooler-state probe; distinct = distinct end-to-end histories".into(),
+        rule: "scenario = pool mode x pool_size {1,2} x (pool_size+1 or +2) client programs (normal, aborts by hard drop/FIN mid-transaction, mid-COPY, mid-batch, server-side errors, server closing mid-reply, server-failed COPY, server dropping its idle pooled connections, extended-protocol batches answered from the statement cache by clients that then stay idle) plus hold-past-connect_timeout with/without checkout_failure_limit; all schedules with <= bound deviations; then pool_size simultaneous probe transactions and a pooler-state probe; distinct = distinct end-to-end histories".into(),
         assumptions: vec![
             "connections are counted on the reference backend's side (accepted minus closed) at quiescent points".into(),
             "hung servers belong to C07's alphabet".into(),
